@@ -56,6 +56,8 @@ class State:
         s.pathid = list(self.pathid)
         s.lets = dict(self.lets)
         s.locked = getattr(self, 'locked', 0)
+        s.iter = getattr(self, 'iter', None)
+        s.ptr_lo = dict(getattr(self, 'ptr_lo', None) or {})
         return s
 
 
@@ -83,6 +85,10 @@ class Frame:
         fr.heads = self.heads
         fr.havocked = dict(self.havocked)
         fr.depth = self.depth
+        if hasattr(self, 'variant'):
+            fr.variant = dict(self.variant)
+        if hasattr(self, 'dry'):
+            fr.dry = self.dry
         return fr
 
 
@@ -125,7 +131,7 @@ class Exec:
             b = self.fresh_ptr(prefix + '.base', st)
             ln = self.fresh(prefix + '.len', BV64)
             cp = self.fresh(prefix + '.cap', BV64)
-            st.pc.append(z3.And(z3.BVSGE(ln, 0), z3.BVSLE(ln, cp)))
+            st.pc.append(z3.And((ln >= 0), (ln <= cp), cp < (1 << 62), z3.Implies(ln > 0, Addr.aid(b.term()) != 0)))
             return V(t, [V('$addr', b), V('int', ln), V('int', cp)])
         if k == 'addr':
             return V(t, self.fresh_ptr(prefix, st))
@@ -222,9 +228,34 @@ class Exec:
             res = z3.Select(a, p.term())
         return res
 
+    def load_leaf_from(self, snap, sort, p):
+        """Load from a saved (base, writes) snapshot."""
+        base, ws = snap
+        a = base
+        i = len(ws) - 1
+        while i >= 0:
+            q, v = ws[i]
+            if addr_same(p, q):
+                return v
+            if addr_distinct(p, q):
+                i -= 1
+                continue
+            break
+        if i < 0:
+            return z3.Select(base, p.term())
+        for (q, v) in ws[:i + 1]:
+            a = z3.Store(a, q.term(), v)
+        return z3.Select(a, p.term())
+
     def store_leaf(self, st, sort, p, term):
         cell = self._memcell(st, sort)
-        cell[1].append((p, term))
+        ws = cell[1]
+        # a later write to the same address shadows an earlier one
+        for i in range(len(ws) - 1, -1, -1):
+            if addr_same(ws[i][0], p):
+                del ws[i]
+                break
+        ws.append((p, term))
 
     def leaf_sort(self, t):
         return self.ts.sort(t)
@@ -268,7 +299,17 @@ class Exec:
                     return PAddr(cid=cid, path=[sel_const(s) if sel_const(s) is not None else s for s in path])
             if term.eq(NIL):
                 return PAddr(base=NIL, lo=0)
-        return PAddr(base=term, lo=-st.nalloc)
+        # every pointer found in memory refers to an object that already exists: it cannot be one of the objects this
+        # path allocates later (ids below -nalloc)
+        lo = -st.nalloc
+        key = term.get_id()
+        seen = getattr(st, 'ptr_lo', None)
+        if seen is None:
+            seen = st.ptr_lo = {}
+        if seen.get(key) != lo:
+            seen[key] = lo
+            st.pc.append(Addr.aid(term) >= lo)
+        return PAddr(base=term, lo=lo)
 
     def store(self, st, p, v):
         r = self.ts.rep(v.t) if isinstance(v.t, str) and not v.t.startswith('$') else ('addr',)
@@ -440,6 +481,12 @@ class Exec:
         return ('unroll', unroll if unroll is not None else self.opt.get('default_unroll', 8))
 
     def run_block(self, fr, bi, pred, st, k):
+        d = getattr(fr, 'dry', None)
+        if d is not None and pred is not None:
+            head, body, outs = d
+            if bi == head or bi not in body:
+                outs.append(st)
+                return
         if bi in fr.heads:
             pol = self.loop_policy(fr, bi)
             body = fr.heads[bi]
@@ -538,24 +585,93 @@ class Exec:
                 c = (x.get('comment') or '').lstrip('#')
                 if c:
                     fr.names[c] = ('val', v)
-        writes = False
-        calls = False
-        for b in body:
-            for x in f['blocks'][b]['instrs']:
-                if x['op'] in ('Store', 'MapUpdate'):
-                    writes = True
-                if x['op'] in ('Call',):
-                    calls = True
         if havoc == 'nothing':
             return
-        if writes or calls:
-            self.collapse_mem(st)
-            self.havoc_mem(st, tag='L')
-        if calls or havoc == 'ghost':
-            for g in list(st.ghost.keys()):
-                if g in self.spec.immutable_ghosts:
+        # what one iteration can modify: dry run of the body on the havocked phis (obligations discarded)
+        outs = []
+        fr2 = fr.fork()
+        fr2.dry = (head, body, outs)
+        fr2.havocked = dict(fr.havocked)
+        fr2.havocked[head] = True
+        st_d = st.copy()
+        n_obl, n_cov, n_paths = len(self.obls), len(self.covers), self.paths
+        self.dry = getattr(self, 'dry', 0) + 1
+        try:
+            self.run_instrs(fr2, head, self.first_nonphi(blk), None, st_d, lambda s2, r: outs.append(s2))
+        finally:
+            self.dry -= 1
+            del self.obls[n_obl:]
+            del self.covers[n_cov:]
+            self.paths = n_paths
+        lp = self.fresh('loop_pure', BoolS)
+        if self.apply_inferred_havoc(st, outs, 'L', lp):
+            st.trace.append(('cb', None, [], [], 'loop', lp, 0))
+
+    def apply_inferred_havoc(self, st, outs, tag, pure):
+        changed_g = set()
+        cells = {}
+        reent = False
+        for s2 in outs:
+            for g, cur in s2.ghost.items():
+                b = st.ghost.get(g)
+                if b is None or not b.eq(cur):
+                    changed_g.add(g)
+            for key, cell in s2.mem.items():
+                b = st.mem.get(key)
+                nb = len(b[1]) if b else 0
+                if b is not None and not b[0].eq(cell[0]):
+                    cells[(key, None)] = None
                     continue
-                st.ghost[g] = self.fresh('gL_' + g, st.ghost[g].sort())
+                base_ws = b[1] if b else []
+                for (p, v) in cell[1]:
+                    if p.cid is not None and p.cid < -st.nalloc:
+                        continue        # allocated during the dry run
+                    if any(addr_same(p, q) and w.eq(v) for (q, w) in base_ws):
+                        continue        # unchanged entry
+                    cells[(key, str(p.term()))] = (p, cell[2])
+            if any(t[0] == 'cb' and t[5] is not None for t in s2.trace[len(st.trace):]):
+                reent = True
+        for g in changed_g:
+            if g.startswith('$now') or g not in st.ghost:
+                continue
+            orig = st.ghost[g]
+            # object-indexed ghosts changed only at some indices (Store chains over the original): havoc those entries
+            idxs = []
+            precise = z3.is_array(orig) and orig.sort().domain() == Addr
+            if precise:
+                for s2 in outs:
+                    cur = s2.ghost.get(g)
+                    while cur is not None and not cur.eq(orig):
+                        if z3.is_app(cur) and cur.decl().kind() == z3.Z3_OP_STORE:
+                            idxs.append(cur.arg(1))
+                            cur = cur.arg(0)
+                        else:
+                            precise = False
+                            break
+                    if not precise:
+                        break
+            if precise:
+                new = orig
+                seen = []
+                for ix in idxs:
+                    if any(ix.eq(y) for y in seen):
+                        continue
+                    seen.append(ix)
+                    new = z3.Store(new, ix, self.fresh('g%s_%s' % (tag, mangle(g)), orig.sort().range()))
+                st.ghost[g] = new
+            else:
+                st.ghost[g] = self.fresh('g%s_%s' % (tag, mangle(g)), orig.sort())
+        for (key, a), pv in cells.items():
+            if pv is None:
+                cell = st.mem[key]
+                cell[0] = self.fresh('M%s_%s' % (tag, mangle(key)), cell[0].sort())
+                cell[1] = []
+            else:
+                p, srt = pv
+                self.store_leaf(st, srt, p, self.fresh('cell' + tag, srt))
+        if reent:
+            self.spec.reentrant_havoc(self, st, pure)
+        return reent
 
     def check_invariants(self, fr, head, invs, decs, st, phase):
         env = self.local_env(fr, st)
@@ -563,7 +679,7 @@ class Exec:
         for c in invs:
             g = self.spec.eval_bool(self, c.expr, env, st, fr.loop_old.get(head, st) if hasattr(fr, 'loop_old') else st)
             self.oblige(st, '%s/%s/loop.%s.%s.%s' % (self.tagstr(c), self.prog.short(fr.f['name']), lid,
-                                                      c.label or 'inv%d' % c.line, phase), g, tags=c.tags,
+                                                      c.label or 'inv%d' % c.ordinal, phase), g, tags=c.tags,
                         where='%s:%d' % (c.file, c.line), kind='invariant')
         if phase == 'preserve':
             for c in decs:
@@ -584,6 +700,8 @@ class Exec:
         for c in decs:
             cur = self.spec.eval(self, c.expr, env, st, st)
             fr.variant[(head, c.line)] = self.spec.as_int(cur)
+        if not getattr(self, 'dry', 0):
+            self.covers.append(('cover/%s/loop.%s.body' % (self.prog.short(fr.f['name']), self.loop_id(fr.f, head)), list(st.pc)))
 
     def tagstr(self, c):
         return '+'.join(c.tags) if c.tags else 'AUX'
@@ -595,6 +713,11 @@ class Exec:
         for n, v in fr.regs.items():
             if n not in env:
                 env[n] = ('val', v)
+        top = self.cur_fn
+        own = fr.f['name'] == top or fr.f['name'].startswith(top + '$')
+        for n, ent in self.cur_env.items():
+            if own or n not in env:
+                env[n] = ent
         return env
 
     # ------------------------------------------------------------------------------------------
@@ -762,7 +885,7 @@ class Exec:
             ry = self.ts.rep(y.t)
             if ry[2]:
                 # negative shift count panics
-                g = z3.BVSGE(b, 0)
+                g = (b >= 0)
                 if not z3.is_true(z3.simplify(g)):
                     self.oblige(st, 'safety/%s/shift-count@L%s' % (self.short_fn(), self.line(ins) if ins else '?'), g,
                                 tags=['SAFE'], kind='safety')
@@ -987,7 +1110,7 @@ class Exec:
     def i_MakeSlice(self, fr, ins, st):
         ln = self.to64(self.operand(fr, ins['len'], st))
         cp = self.to64(self.operand(fr, ins['cap'], st))
-        g = z3.And(z3.BVSGE(ln, 0), z3.BVSLE(ln, cp))
+        g = z3.And((ln >= 0), (ln <= cp))
         if not z3.is_true(z3.simplify(g)):
             self.oblige(st, 'safety/%s/makeslice@L%s' % (self.short_fn(), self.line(ins)), g, tags=['SAFE'], kind='safety')
             st.pc.append(g)
@@ -1137,7 +1260,7 @@ class Exec:
     def do_select(self, fr, ins, st):
         n = len(ins['states'])
         idx = self.fresh('select_idx', BV64)
-        st.pc.append(z3.And(z3.BVSGE(idx, 0), z3.BVSLT(idx, n)))
+        st.pc.append(z3.And((idx >= 0), (idx < n)))
         chans = [self.term(self.operand(fr, s['chan'], st)) for s in ins['states']]
         st.trace.append(('select', idx, chans))
         tt = self.prog.ty(ins['type'])
